@@ -5,7 +5,7 @@ use std::collections::HashSet;
 use std::path::PathBuf;
 use trust_runtime::error::RuntimeError;
 use trust_runtime::harness::TestHarness;
-use trust_runtime::io::{IoAddress, IoTarget};
+use trust_runtime::io::{IoAddress, IoDriver, IoTarget};
 use trust_runtime::memory::{InstanceId, MemoryLocation, VariableStorage};
 use std::sync::{Arc, Mutex};
 use trust_runtime::retain::{FileRetainStore, RetainStore};
@@ -27,6 +27,10 @@ pub enum Op {
     WAcc(String, MVal),
     /// make the storage medium writable / unwritable
     EnvW(bool),
+    /// size the process images and register a field driver
+    Driver(usize, usize, usize),
+    /// the field presents these input bytes
+    Field(Vec<u8>),
 }
 
 impl Op {
@@ -43,6 +47,8 @@ impl Op {
             Op::Fault => "fault".into(),
             Op::WAcc(n, v) => format!("wacc {n} {}", v.show()),
             Op::EnvW(w) => format!("envw {}", u8::from(*w)),
+            Op::Driver(i, q, m) => format!("driver {i} {q} {m}"),
+            Op::Field(b) => format!("field {}", crate::util::hex(b)),
         }
     }
 }
@@ -60,6 +66,13 @@ pub struct Dump {
     pub i: String,
     pub q: String,
     pub m: String,
+    /// image lengths
+    pub li: usize,
+    pub lq: usize,
+    pub lm: usize,
+    /// slice lengths the field driver was handed during this operation
+    pub di: Option<usize>,
+    pub dq: Option<usize>,
     pub dead: usize,
     pub acc: Vec<(String, String)>,
     /// content of the storage medium (`name=value` in stored order)
@@ -72,7 +85,7 @@ pub struct Dump {
 impl Dump {
     pub fn line(&self) -> String {
         format!(
-            "res={} t={} cc={} f={} lf={} fr={} ov={} I={} Q={} M={} dead={} acc={} S={} V {}",
+            "res={} t={} cc={} f={} lf={} fr={} ov={} I={} Q={} M={} LI={} LQ={} LM={} DI={} DQ={} dead={} acc={} S={} V {}",
             self.res,
             self.t,
             self.cc,
@@ -83,6 +96,11 @@ impl Dump {
             self.i,
             self.q,
             self.m,
+            self.li,
+            self.lq,
+            self.lm,
+            self.di.map(|n| n.to_string()).unwrap_or_else(|| "-".into()),
+            self.dq.map(|n| n.to_string()).unwrap_or_else(|| "-".into()),
             self.dead,
             if self.acc.is_empty() {
                 "-".to_string()
@@ -227,6 +245,32 @@ fn io_value(a: &Addr, raw: u64) -> Value {
     }
 }
 
+/// The field behind the driver: input bytes it delivers, and the slice lengths it was handed.
+#[derive(Default)]
+pub struct Field {
+    pub inputs: Vec<u8>,
+    pub seen_in: Option<usize>,
+    pub seen_out: Option<usize>,
+}
+
+/// A driver of the kind every shipped driver is: it fills the whole input slice it is given.
+pub struct FieldDriver(pub Arc<Mutex<Field>>);
+
+impl IoDriver for FieldDriver {
+    fn read_inputs(&mut self, inputs: &mut [u8]) -> Result<(), RuntimeError> {
+        let mut f = self.0.lock().unwrap();
+        for (i, b) in inputs.iter_mut().enumerate() {
+            *b = f.inputs.get(i).copied().unwrap_or(0);
+        }
+        f.seen_in = Some(inputs.len());
+        Ok(())
+    }
+    fn write_outputs(&mut self, outputs: &[u8]) -> Result<(), RuntimeError> {
+        self.0.lock().unwrap().seen_out = Some(outputs.len());
+        Ok(())
+    }
+}
+
 /// A scripted storage medium: `store` fails while `writable` is false.
 #[derive(Default)]
 pub struct ScriptedMedium {
@@ -262,11 +306,13 @@ pub struct Exec<'a> {
     pub source: String,
     pub slots: Vec<Option<TestHarness>>,
     pub medium: Medium,
+    /// field of each slot's driver (None = no driver registered)
+    pub fields: Vec<Option<Arc<Mutex<Field>>>>,
 }
 
 impl<'a> Exec<'a> {
     pub fn new(case: &'a Case, medium: Medium) -> Self {
-        Exec { case, source: case.render_source(), slots: vec![None, None], medium }
+        Exec { case, source: case.render_source(), slots: vec![None, None], medium, fields: vec![None, None] }
     }
 
     fn medium_content(&self) -> Vec<(String, String)> {
@@ -295,6 +341,11 @@ impl<'a> Exec<'a> {
             i: trimmed_hex(rt.io().inputs()),
             q: trimmed_hex(rt.io().outputs()),
             m: trimmed_hex(rt.io().memory()),
+            li: rt.io().inputs().len(),
+            lq: rt.io().outputs().len(),
+            lm: rt.io().memory().len(),
+            di: self.fields[k].as_ref().and_then(|f| f.lock().unwrap().seen_in),
+            dq: self.fields[k].as_ref().and_then(|f| f.lock().unwrap().seen_out),
             ..Default::default()
         };
         // connectedness of every binding the runtime holds
@@ -374,10 +425,16 @@ impl<'a> Exec<'a> {
 
     /// Run one primitive operation on slot `k` of the real runtime.
     pub fn apply(&mut self, k: usize, op: &Op) -> Result<Dump, String> {
+        if let Some(f) = &self.fields[k] {
+            let mut f = f.lock().unwrap();
+            f.seen_in = None;
+            f.seen_out = None;
+        }
         let res: Result<(), RuntimeError> = match op {
             Op::Build => {
                 let h = TestHarness::from_source(&self.source).map_err(|e| format!("compile: {e}"))?;
                 self.slots[k] = Some(h);
+                self.fields[k] = None;
                 Ok(())
             }
             Op::CopyIn(j) => {
@@ -421,6 +478,20 @@ impl<'a> Exec<'a> {
                 Ok(())
             }
             Op::WAcc(n, v) => self.slots[k].as_mut().unwrap().set_access(n, mval_to_value(v)),
+            Op::Driver(ni, nq, nm) => {
+                let h = self.slots[k].as_mut().unwrap();
+                h.runtime_mut().io_mut().resize(*ni, *nq, *nm);
+                let field = Arc::new(Mutex::new(Field::default()));
+                h.runtime_mut().add_io_driver("field", Box::new(FieldDriver(field.clone())));
+                self.fields[k] = Some(field);
+                Ok(())
+            }
+            Op::Field(bytes) => {
+                if let Some(f) = &self.fields[k] {
+                    f.lock().unwrap().inputs = bytes.clone();
+                }
+                Ok(())
+            }
             Op::EnvW(w) => {
                 match &self.medium {
                     Medium::File { dir, .. } => {
